@@ -81,7 +81,7 @@ def main(tier, only=None):
         from . import pinned_probe
 
         enga.init()
-        results += [r for r in pinned_probe.run(runner.SEED) if "safe " in r["key"] or "masked" in r["key"]]
+        results += [r for r in pinned_probe.run(runner.SEED) if "safe " in r["key"] or "masked" in r["key"] or "piecewise-constant factors" in r["key"] or "astype" in r["key"]]
     return runner.finish(
         ID, tier, results, t0,
         functions=["autograd.core:make_vjp / make_jvp end_node-is-None zero path", "autograd.tracer:trace 'Output seems independent of input' path", "autograd.tracer:primitive notrace branch", "autograd.tracer:notrace_primitive",
